@@ -71,7 +71,7 @@ def cached_cases(ctx):
     h.update(open(common.DRIVER, "rb").read())
     h.update(f"{ctx['tier']}/{ctx['seed']}".encode())
     if os.environ.get("VERIF_NO_CACHE"):
-        return hier.run_graphs(gen.graph_inputs(ctx["tier"], ctx["seed"]))
+        return hier.run_graphs(gen.graph_inputs(ctx["tier"], ctx["seed"]) + hier.derived_inputs(ctx["tier"], ctx["seed"]))
     cdir = os.path.join(common.VERIF, ".cache")
     os.makedirs(cdir, exist_ok=True)
     path = os.path.join(cdir, f"hier-{h.hexdigest()[:24]}.pkl")
@@ -80,7 +80,7 @@ def cached_cases(ctx):
             return pickle.load(open(path, "rb"))
         except Exception:  # noqa: BLE001
             pass
-    cases = hier.run_graphs(gen.graph_inputs(ctx["tier"], ctx["seed"]))
+    cases = hier.run_graphs(gen.graph_inputs(ctx["tier"], ctx["seed"]) + hier.derived_inputs(ctx["tier"], ctx["seed"]))
     for old in os.listdir(cdir):
         if old.startswith("hier-") and ctx["tier"] == "quick":
             try:
@@ -133,7 +133,7 @@ def run(ctx, prop):
         "distinct_nontrivial": len(nontrivial),
         "rule": "closed CFGs (entry=node 0, ≤2 ordered distinct successors): all with ≤4 nodes"
                 + (" and all 88 680 with 5 nodes" if ctx["tier"] == "thorough" else " plus a seeded sample of 5- and 6-node ones")
-                + ", seeded random and template-biased larger ones; each run through the real join_returns, "
+                + ", seeded random and template-biased larger ones, closed CFGs of standard-library functions (bytecode front end) and of generated functions (source front end); each run through the real join_returns, "
                   "restructure_loop, restructure_branch with every stage exported and judged by the Lean deciders; "
                   "non-trivial = the final hierarchy has more entries than input blocks + 1 (something was restructured)",
         "exhaustive": False,
